@@ -38,6 +38,9 @@ class Unit:
         return f"<Unit {self.uid}>"
 
 
+TOUCHED_NODES: set = set()  # id() of function nodes the abstract interpreter executed (filled by absint.run_function)
+
+
 class Program:
     """All parsed modules of the package."""
 
@@ -48,6 +51,7 @@ class Program:
         self.sources: dict[str, str] = {}
         self.units: dict[str, Unit] = {}
         self.classes: dict[str, Unit] = {}
+        self.touched: set[str] = set()  # units a rule asked for by name
         self._load()
 
     # ------------------------------------------------------------------
@@ -105,7 +109,13 @@ class Program:
     def unit(self, uid: str) -> Unit:
         if uid not in self.units:
             raise AnalysisError(f"anchor unit {uid} not found in {self.root}")
+        self.touched.add(uid)
         return self.units[uid]
+
+    def consulted(self):
+        """Functions a check looked at: asked for by a rule, or executed (inlined) by the abstract interpreter."""
+        by_node = {id(u.node): uid for uid, u in self.units.items()}
+        return sorted(self.touched | {by_node[i] for i in TOUCHED_NODES if i in by_node})
 
     def has(self, uid: str) -> bool:
         return uid in self.units
